@@ -99,7 +99,10 @@ class Check:
         self.seed = int(os.environ.get('VERIF_SEED', '0') or 0)
         self.rng = random.Random(self.seed * 1000003 + sum(map(ord, pid)))
         self.t0 = time.time()
-        self.rundir = os.path.join(VERIF, '.run', pid)
+        # VERIF_RUNTAG: a side run (seeded-mutant runs, concurrent development) that must not
+        # disturb the registered run's scratch directory, evidence file or replays
+        self.tag = os.environ.get('VERIF_RUNTAG', '')
+        self.rundir = os.path.join(VERIF, '.run', pid + self.tag)
         shutil.rmtree(self.rundir, ignore_errors=True)
         os.makedirs(self.rundir, exist_ok=True)
         os.makedirs(os.path.join(VERIF, 'evidence'), exist_ok=True)
@@ -301,7 +304,7 @@ class Check:
 
     def violation(self, replay, no_input=False):
         self._nreplay += 1
-        path = os.path.join(VERIF, 'replays', f'{self.pid}-{self._nreplay}.json')
+        path = os.path.join(VERIF, 'replays', f'{self.pid}{self.tag}-{self._nreplay}.json')
         replay = dict(replay)
         replay.update({'property': self.pid, 'seed': self.seed, 'tier': self.tier})
         with open(path, 'w') as f:
@@ -337,7 +340,8 @@ class Check:
         ev = {'property_id': self.pid, 'tier': self.tier, 'seed': self.seed, 'level': level,
               'coverage': cov, 'assumptions': assumptions or [], 'wall_s': round(time.time() - self.t0, 2),
               'violations': len(self.violation_lines)}
-        with open(os.path.join(VERIF, 'evidence', f'{self.pid}.json'), 'w') as f:
+        evpath = os.path.join(VERIF, 'evidence', f'{self.pid}.json') if not self.tag else os.path.join(self.rundir, 'evidence.json')
+        with open(evpath, 'w') as f:
             json.dump(ev, f, indent=1, default=str)
         print(f'[{self.pid}] tier={self.tier} seed={self.seed} obligations={ndis}/{nobl} '
               f'evaluations={cov["evaluations"]} nontrivial={cov["distinct_nontrivial"]} '
